@@ -2,7 +2,6 @@
 
 import numpy as np
 
-from toqito.channel_ops import kraus_to_choi
 from toqito.channel_props import is_completely_positive, is_trace_preserving
 
 
@@ -70,11 +69,8 @@ def is_quantum_channel(
     :return: :code:`True` if the channel is a quantum channel, and :code:`False` otherwise.
 
     """
-    # If the variable `phi` is provided as a list, we assume this is a list
-    # of Kraus operators.
-    if isinstance(phi, list):
-        phi = kraus_to_choi(phi)
-
+    # A list of Kraus operators is handed on as it is: both predicates accept it, and the Kraus form (unlike its Choi
+    # matrix) carries the input and output dimensions, which differ for, e.g., an isometric channel.
     # A valid quantum channel is a superoperator that is both completely
     # positive and trace-preserving.
     return is_completely_positive(phi, rtol, atol) and is_trace_preserving(phi, rtol, atol)
